@@ -214,6 +214,22 @@ func (i *Inst) RunTeardown(s *TdScript, tw *TraceWriter, rng *rand.Rand) error {
 	default:
 		return fmt.Errorf("unknown cause %q", s.Cause)
 	}
+	// the client goes on sending after it ended its side by a packet (as one that has not noticed yet): the end is the
+	// end all the same
+	if s.Inflight == "keeps-sending" {
+		stopSend := make(chan struct{})
+		defer close(stopSend)
+		go func() {
+			for {
+				select {
+				case <-stopSend:
+					return
+				case <-time.After(200 * time.Millisecond):
+				}
+				t.SendRaw(tsgu.Data(10, []byte("0123456789")))
+			}
+		}()
+	}
 	t0 := time.Now()
 	deadline := t0.Add(tdBound)
 	left := func() time.Duration {
@@ -283,6 +299,9 @@ func (i *Inst) RunTeardown(s *TdScript, tw *TraceWriter, rng *rand.Rand) error {
 	}
 	if s.Inflight == "reout" {
 		causeLabel += "@reout"
+	}
+	if s.Inflight == "keeps-sending" {
+		causeLabel += "@keeps-sending"
 	}
 	tw.Line(M{"ev": "teardown", "script": s.ID, "transport": s.Transport, "point": s.Point, "cause": causeLabel, "inflight": s.Inflight, "hadHost": hadHost,
 		"hostClosed": hostClosed, "connsClosed": connsClosed, "loopExited": loopIdx >= 0, "relayDone": relayDone, "unregistered": unregIdx >= 0,
